@@ -22,14 +22,15 @@ CONSTANTS
   SelfAssign = %(bug)s
   ExtraLimit = "%(extra)s"
   LateSetConfig = %(late)s
+  HandlerDeviation = "%(hdev)s"
 INVARIANTS %(inv)s
 CHECK_DEADLOCK FALSE
 """
-LIB_INV = "TypeOK CarriesConfigured LimitsEnforced NoOtherLimit ConcurrencyBounded IdlePerHostKept"
+LIB_INV = "TypeOK CarriesConfigured LimitsEnforced HandlersTransparent NoOtherLimit ConcurrencyBounded IdlePerHostKept"
 
 
-def cfg(spec, n, bug=False, extra="none", late=False, inv=LIB_INV):
-    return CFG % dict(spec=spec, n=n, bug="TRUE" if bug else "FALSE", extra=extra, late="TRUE" if late else "FALSE", inv=inv)
+def cfg(spec, n, bug=False, extra="none", late=False, inv=LIB_INV, hdev="none"):
+    return CFG % dict(spec=spec, n=n, bug="TRUE" if bug else "FALSE", extra=extra, late="TRUE" if late else "FALSE", inv=inv, hdev=hdev)
 
 
 def fields(ctx, path, what):
@@ -80,7 +81,7 @@ def run(ctx):
         "time: 504 must arrive within the configured timeout + 1.5 s; the slow upstream needs 10x the timeout, the timely one a tenth; verdicts a stalled machine could cause are tried three times",
         "keep-alive is observed as TCP_KEEPIDLE of a dialled connection, the dial timeout against a listener with a full accept queue (Linux)",
     ]
-    n = ctx.pick(4, 6)
+    n = ctx.pick(4, 5)
     mc = ctx.tlc("Transport_MC", cfg_text=cfg("Spec", n + 1), workers=8, timeout=600, coverage=ctx.thorough)
     ctx.log("MC: %d generated, %d distinct, %.0fs" % (mc.generated, mc.distinct, mc.wall))
     if not ctx.need_tlc_ok(mc, "Transport MC"):
@@ -98,6 +99,8 @@ def run(ctx):
     for name, kw, spec, inv in (("SelfAssign", dict(bug=True), "Spec", "CarriesConfigured"),
                                 ("ExtraLimit=maxidletotal", dict(extra="maxidletotal"), "Spec", "IdlePerHostKept"),
                                 ("ExtraLimit=maxconns", dict(extra="maxconns"), "Spec", "ConcurrencyBounded"),
+                                ("HandlerDeviation=gzipdelay", dict(hdev="gzipdelay"), "Spec", "HandlersTransparent"),
+                                ("HandlerDeviation=expectwait", dict(hdev="expectwait"), "Spec", "HandlersTransparent"),
                                 ("LateSetConfig", dict(late=True), "MainSpec", "MainCarries")):
         r = ctx.tlc("Transport_MC", cfg_text=cfg(spec, 3, inv=inv, **kw), workers=1, timeout=300)
         if r.violated != inv:
@@ -145,8 +148,8 @@ def run(ctx):
     if r2 is None:
         return
     s2 = r2.summary
-    ctx.log("behaviour: %d cases, %d requests (%d retries); concurrent/reuse: %d cases (%d runs, %d void); binary: %d requests over the 3 routes of the first table; %d failed, %.0fs"
-            % (s2["cases"], s2["ran"], s2["retried"], s2["conc_cases"], s2["conc_ran"], s2["conc_voided"], s2.get("binary_ran", 0),
+    ctx.log("behaviour: %d cases incl. handlers x request kinds, %d requests (%d retries; waves: %d judged with 0.5 s slack, %d with 1.5 s, %d void); concurrent/reuse: %d cases (%d runs, %d void); binary: %d requests over the 3 routes of the first table; %d failed, %.0fs"
+            % (s2["cases"], s2["ran"], s2["retried"], s2["waves_tight"], s2["waves_wide"], s2["waves_void"], s2["conc_cases"], s2["conc_ran"], s2["conc_voided"], s2.get("binary_ran", 0),
                s2["fails"], r2.wall))
     ctx.take_failures(r2, "behaviour")
     if s2.get("unstable") or s2.get("conc_unstable") or s2.get("binary_unstable"):
